@@ -135,3 +135,14 @@ func VerifDrawSystemBytes(c Connection) (uint32, bool) {
 
 	return uint32(b[0])<<24 | uint32(b[1])<<16 | uint32(b[2])<<8 | uint32(b[3]), true
 }
+
+// VerifTransport returns the transport c drives, as an opaque value for the transport package's
+// own verif hooks (nil if c is not a connection of this package).
+func VerifTransport(c Connection) any {
+	cc, ok := c.(*connection)
+	if !ok {
+		return nil
+	}
+
+	return cc.tr
+}
